@@ -119,6 +119,11 @@ func main() {
 		}
 	}
 	cleanup := func() {}
+	for _, a := range os.Args[1:] {
+		if a == "-replay" || a == "--replay" {
+			isWorker = true // the replayed worker builds (and removes) its own gombok
+		}
+	}
 	if !isWorker {
 		c, err := gbk.ParentSetup()
 		if err != nil {
@@ -150,7 +155,7 @@ func main() {
 			}
 		},
 		CaseCPUBudget: 600,
-		Rule: "case = one input package (1..6 struct declarations) drawn from the grammar in verif/gbk: field counts {1,2,3,8,9,20,21,22,30} (counted in applicable fields; `_`-prefixed and empty embedded fields are added on top), private / Public / _underscore / embedded fields, field types basic, named, imported, pointer, slice, []byte, array, map, func, chan (3 directions), interfaces (named, imported, inline, any), fp.Option/Seq/Map/Try/Either/Future/Tuple2/Func1, anonymous structs, other annotated structs, type parameters with any / comparable / named-interface / inline method-set / named and inline type-set constraints and unused parameters, struct tags, annotation sets (@fp.Value alone and with @fp.Json/@fp.JsonTag/@fp.GenLabelled/@fp.String/constructors/PubField, stand-alone @fp.Getter/@fp.With/@fp.Builder/@fp.AllArgsConstructor/@fp.RequiredArgsConstructor), `type (...)` groups, doc comments, `a, b T` fields, `type X Y` re-declarations, hand-written methods carrying generated names. Batches 0..2 are the shapes of the in-repo examples plus the tuple-limit and constraint shapes. gombok (built from the working tree) runs on the package; the package is compiled together with a law test written from the spec and the laws are evaluated on >=64 generated values per struct. distinct_nontrivial = number of distinct struct shapes (multiset of field kind x visibility, annotation set, arity class, constraint kinds, hand-written members) whose laws were actually evaluated (gombok accepted them and the package compiled).",
+		Rule:          "case = one input package (1..6 struct declarations) drawn from the grammar in verif/gbk: field counts {1,2,3,8,9,20,21,22,30} (counted in applicable fields; `_`-prefixed and empty embedded fields are added on top), private / Public / _underscore / embedded fields, field types basic, named, imported, pointer, slice, []byte, array, map, func, chan (3 directions), interfaces (named, imported, inline, any), fp.Option/Seq/Map/Try/Either/Future/Tuple2/Func1, anonymous structs, other annotated structs, type parameters with any / comparable / named-interface / inline method-set / named and inline type-set constraints and unused parameters, struct tags, annotation sets (@fp.Value alone and with @fp.Json/@fp.JsonTag/@fp.GenLabelled/@fp.String/constructors/PubField, stand-alone @fp.Getter/@fp.With/@fp.Builder/@fp.AllArgsConstructor/@fp.RequiredArgsConstructor), `type (...)` groups, doc comments, `a, b T` fields, `type X Y` re-declarations, hand-written methods carrying generated names. Batches 0..2 are the shapes of the in-repo examples plus the tuple-limit and constraint shapes. gombok (built from the working tree) runs on the package; the package is compiled together with a law test written from the spec and the laws are evaluated on >=64 generated values per struct. distinct_nontrivial = number of distinct struct shapes (multiset of field kind x visibility, annotation set, arity class, constraint kinds, hand-written members) whose laws were actually evaluated (gombok accepted them and the package compiled).",
 		Assumptions: []string{
 			"field and type names are ordinary identifiers from a fixed pool: names whose derived method name collides with another member (build, builder, string, a private name next to a public Name), the receiver name r and names of imported packages are outside the grammar",
 			"gombok refusing a declaration (panic such as can't summon / nil dereference, or no output for it) is not a violation; refused shapes are counted",
@@ -160,7 +165,7 @@ func main() {
 		Floors: func(tier string) map[string]int64 {
 			m := map[string]int64{"packages": 12, "structs.tested": 40, "law_evaluations": 20000, "distinct": 30,
 				"hit.arity.21": 1, "hit.arity.22": 1, "hit.arity.>22": 1, "hit.handwritten.bsetter": 1, "hit.handwritten.getter": 1, "hit.handwritten.with": 1,
-				"hit.annotation.@fp.GenLabelled": 1, "hit.annotation.@fp.Json": 1, "hit.annotation.@fp.Builder": 1, "hit.constraint.named-typeset": 1,
+				"hit.annotation.@fp.GenLabelled": 1, "hit.annotation.@fp.Json": 1, "hit.annotation.@fp.Builder": 1, "hit.constraint.named-typeset": 1, "hit.constraint.inline-typeset": 1, "hit.constraint.typeset+method": 1,
 				"structs.refused": 1}
 			if tier == "thorough" {
 				m["packages"], m["structs.tested"], m["law_evaluations"], m["distinct"] = 160, 400, 300000, 250
